@@ -6,7 +6,7 @@
    resolver tables [e]; [find_proxy] is NewProxyResolver's entry-point rule followed by FindProxyForURL
    (script, then the checks on the result); [parse_proxy], [proxies_first], [proxy_url] are pac/proxy.go. *)
 From Coq Require Import Permutation.
-From G14 Require Import Model Spec Check ProofsBasic ProofsPool ProofsParse ProofsGlob ProofsNet ProofsAll PinnedExpected Obligations.
+From G14 Require Import Model Spec Check ProofsBasic ProofsPool ProofsParse ProofsGlob ProofsNet ProofsAll ProofsCidr PinnedExpected Obligations.
 Open Scope N_scope.
 
 (* shExpMatch is shell-expression (glob) matching: for every pattern made of literals, '.', '*', '?' and
@@ -37,6 +37,21 @@ Theorem T14_masked_equality_bits : forall h0 h1 h2 h3 p0 p1 p2 p3 m0 m1 m2 m3,
    Z.land h0 m0 = Z.land p0 m0 /\ Z.land h1 m1 = Z.land p1 m1 /\ Z.land h2 m2 = Z.land p2 m2 /\ Z.land h3 m3 = Z.land p3 m3).
 Proof. exact masked_eq_iff. Qed.
 Print Assumptions T14_masked_equality_bits.
+
+(* isInNetEx's test (IPNet.Contains with the mask CIDRMask(n, bits), as ParseCIDR stores the network) is CIDR
+   containment: same family and the first n bits of address and network agree — for IPv4 and for IPv6 *)
+Theorem T14_isInNetEx_is_prefix_v4 : forall n ip nt,
+  length ip = 4%nat -> length nt = 4%nat -> all_octets ip -> all_octets nt ->
+  net_contains (mask_bytes nt (cidr_mask n 4), cidr_mask n 4) ip = in_prefix n ip nt.
+Proof. exact contains_v4. Qed.
+Print Assumptions T14_isInNetEx_is_prefix_v4.
+
+Theorem T14_isInNetEx_is_prefix_v6 : forall n ip nt,
+  length ip = 16%nat -> length nt = 16%nat -> all_octets ip -> all_octets nt ->
+  to4 ip = None -> to4 (mask_bytes nt (cidr_mask n 16)) = None ->
+  net_contains (mask_bytes nt (cidr_mask n 16), cidr_mask n 16) ip = in_prefix n ip nt.
+Proof. exact contains_v6. Qed.
+Print Assumptions T14_isInNetEx_is_prefix_v6.
 
 Theorem T14_dnsDomainIs_suffix : forall host dom, dnsDomainIs host dom = true <-> exists pre, host = pre ++ dom.
 Proof. exact dnsDomainIs_suffix. Qed.
